@@ -524,7 +524,8 @@ func runEp(roleTok, magic string, pre, seed []byte, gLen int, decoys []string, i
 	if err != nil {
 		return "hs=err:" + errClass(err) + " " + common + " w=" + digest(rw.w.Bytes()), rw.w.Bytes()
 	}
-	out := []string{"hs=ok", common, "sid=" + hx(p.VerifSession().SessionID)}
+	sid0, pfx0 := hx(p.VerifSession().SessionID), hx(p.ReceivedPrefix())
+	out := []string{"hs=ok", common, "sid=" + sid0}
 	failed := false
 loop:
 	for _, a := range acts {
@@ -550,6 +551,11 @@ loop:
 	}
 	if !failed {
 		out = append(out, "k="+keysDigest(p))
+	}
+	// results are values: session id and received prefix observed after the handshake
+	// must read the same after any amount of traffic
+	if hx(p.VerifSession().SessionID) != sid0 || hx(p.ReceivedPrefix()) != pfx0 {
+		return "observed-value-changed", rw.w.Bytes()
 	}
 	out = append(out, "w="+digest(rw.w.Bytes()))
 	return strings.Join(out, " "), rw.w.Bytes()
